@@ -137,6 +137,12 @@ CLAIMED["C36"] = dict(
     note="Trusted: z3, ref/irsem.py, ref/pyoracle.py (operator routing, 64-bit premise, lazy range), the engine (every path re-executed concretely with real ints). Arguments range over all of i64 except parameters that influence loop trip counts or in-loop conditions ([-2,5] quick, [-3,6] thorough); unwinding 4000/8000 IR instructions (no cut paths). Outside: floats, str, constructs ppci rejects with CompilerError (%, unary minus, not, range step), paths on which CPython raises, back ends.",
     technique=TECH_TV)
 
+CLAIMED["C24"] = dict(
+    level="translation_validation", design="§4 C24",
+    text="Translation validation of the Python backend on the integer and pointer subset: for every module of the stated families the real ir_to_python output is exec()-ed on symbolic proxies next to ref/irsem.py with the same symbolic arguments, initial global / pointed-to memory and external call results. The solver proves, under the premise that the source execution is defined, that on every path there is no exception, the return value is equal and canonical for its type, every byte of every global and caller buffer is equal, and the external call trace is equal. Families: every Binop and Unop operator at every integer width; all 81 casts over {i8..u64, ptr}; typed loads/stores at symbolic offsets incl. aliasing pairs; phi/CFG templates; 55 C programs through the real front end, unoptimised and optimised.",
+    note="Floating point is outside: the property's clause that float-to-integer conversion truncates toward zero is NOT covered (no symbolic float domain; by reading, ir2py uses int(round(x))). Also outside: blob loads/stores, CopyBlob, JumpTable, indirect calls, external variables. Loops unwound to 140 (300) IR instructions; longer paths are cut and counted. Pointer width 32 bits; the reference is evaluated under the generated code's heap address map. Runtime helpers correct/idiv/irem are recompiled from the GENERATED source with pure ifs merged (symx.ifconv); every path is re-validated concretely on the untouched code.",
+    technique=TECH_TV)
+
 NOT_APPLICABLE = {
     "C04": "property is about native execution of whole gcc/ppci-compiled programs; no x86-64 semantics model is in reach and running binaries is enumeration of concrete runs, not solver-based checking",
     "C06": "dataflow property over uninterpreted instruction semantics: a checker would be tag propagation in which a solver decides nothing",
